@@ -93,7 +93,11 @@ def main():
             try:
                 d = Path(tmp) / f"case{n}"
                 d.mkdir()
-                out.append(run_acq(c) if c.get("kind") == "acq" else run_pipe(c, d))
+                if c.get("kind") == "line":
+                    from harness.impl.c07line import run_line_case
+                    out.append(run_line_case(c))
+                else:
+                    out.append(run_acq(c) if c.get("kind") == "acq" else run_pipe(c, d))
             except Exception as e:  # noqa: BLE001
                 import traceback
                 out.append({"error": f"{type(e).__name__}: {e}", "tb": traceback.format_exc()[-600:]})
